@@ -37,7 +37,7 @@ def gen(rng):
     steps = L['steps']
     env, uid, home = dict(L['env']), L['uid'], L['home']
     names = ['alpha', 'beta', 'gamma', 'delta', 'alp', 'Beta']
-    made = TG.populate(rng, L, steps, n=rng.choice([1, 2, 2, 3, 4, 6]), names=names, kinds=('file', 'dir'), bulk=0.002)
+    made = TG.populate(rng, L, steps, n=rng.choice([1, 2, 2, 3, 4, 6]), names=names, kinds=('file', 'file', 'dir', 'link'), bulk=0.002)
     locs = [t for t in TG.trash_locations(L) if t[2]]
     used_dirs = sorted(set(m[0] for m in made)) or [locs[0][0]]
     extra = []
@@ -50,6 +50,15 @@ def gen(rng):
         # (an older generation of the same file whose info lost its date)
         pv = TG.pct(rng.choice(made)[2]) if (made and k in ('nodate', 'baddate', 'offsetdate') and rng.random() < 0.5) else None
         TG.add_malformed(rng, extra, tdir, k, str(i), path_value=pv)
+    if made and rng.random() < 0.1:
+        # an info WITHOUT payload called X.trashinfo.trashinfo (what is left of a stray 'X.trashinfo' somebody trashed and half
+        # removed), X being a well-formed entry of the same directory: it stands for files/X.trashinfo, not for files/X
+        tdir_, nm_, loc_, _d = rng.choice(made)
+        if len(nm_.encode('utf-8', 'surrogateescape')) < 200 and not any((m_[0] == tdir_ and m_[1] == nm_ + '.trashinfo') or m_[2] == loc_ + '.trashinfo' for m_ in made):
+            extra.append(['f', tdir_ + '/info/' + nm_ + '.trashinfo.trashinfo',
+                          G.fmt_info(TG.pct(loc_ + '.trashinfo') if loc_.startswith('/') and tdir_.startswith(home) else 'docs/' + TG.pct(nm_ + '.trashinfo'),
+                                     rng.choice(['2001-01-01T00:00:00', '2001-01-01T00:00:00', TG.iso(TG.rand_date(rng))])), 0o600])
+            kinds.append('nopayload-named-X.trashinfo')
     nofile = None
     if rng.random() < 0.04:
         # a small descriptor limit (ulimit -n) and more odd neighbours of one kind than that: a reader that leaks one
@@ -68,9 +77,9 @@ def gen(rng):
         argv = ['trash-restore', '/'] + rng.choice([[], [], ['--sort=date'], ['--sort=path'], ['--sort=none']])
         stdin = '?'
     elif reader == 'rm':
-        argv = ['trash-rm', rng.choice(['*', 'alpha', 'al*', '*a', home + '/*', '/*', '[ab]*', 'mal_*'])]
+        argv = ['trash-rm', rng.choice(['*', 'alpha', 'al*', '*a', home + '/*', '/*', '[ab]*', 'mal_*', '*.trashinfo', 'alpha.trashinfo', '*.trash*'])]
     else:
-        argv = ['trash-empty'] + rng.choice([[], ['0'], ['1'], ['100'], ['100000'], ['-v']])
+        argv = ['trash-empty'] + rng.choice([[], ['0'], ['1'], ['100'], ['100000'], ['-v'], ['1000'], ['5000'], ['300']])
     return {
         'world': {'mounts': L['mounts'], 'steps': steps},
         'extra_steps': extra,
